@@ -87,6 +87,16 @@ fn gen(t: &mut Tape, tier: Tier) -> Scenario {
             }
         }
     }
+    if !lzma2 && t.below(3) == 0 {
+        let total: u64 = sizes.iter().sum();
+        sc.set_i("memlimit", match t.below(5) {
+            0 => 1 << 30,
+            1 => sc.i("raw_dict"),
+            2 => total.max(1),
+            3 => t.range(0, 4096),
+            _ => sizes[0],
+        });
+    }
     sc.set_i("nstreams", nstreams as u64);
     sc.set_l("sizes", sizes.clone());
     sc.set_l("markers", markers);
@@ -169,6 +179,8 @@ fn exec(sc: &Scenario, ctx: &mut Ctx) -> Vec<Violation> {
             size,
         )
     };
+    // the same memory limit for the reused decoder and for every fresh one
+    let memlimit: Option<usize> = sc.opt_i("memlimit").map(|m| m as usize);
     let mut cur_size: Option<u64> = sc.opt_i("init_size");
     // OP_CYCLE expands to k x (reset re-specifying what the stream needs, decompress)
     let mut prim: Vec<[u64; 2]> = Vec::new();
@@ -192,7 +204,7 @@ fn exec(sc: &Scenario, ctx: &mut Ctx) -> Vec<Violation> {
     let mut dirty_compared = 0u64;
     let mut io_dirty = 0u64;
     let r = guarded(|| {
-        let mut d1 = if lzma2 { None } else { LzmaDecoder::new(params(cur_size), None).ok() };
+        let mut d1 = if lzma2 { None } else { LzmaDecoder::new(params(cur_size), memlimit).ok() };
         let mut d2 = if lzma2 { Some(Lzma2Decoder::new()) } else { None };
         let mut just_reset = false;
         let mut dirty = false; // something failed half-way since construction
@@ -217,7 +229,7 @@ fn exec(sc: &Scenario, ctx: &mut Ctx) -> Vec<Violation> {
                         let fv = if lzma2 {
                             err_kind(Lzma2Decoder::new().decompress(&mut fr, &mut fout))
                         } else {
-                            match LzmaDecoder::new(params(cur_size), None) {
+                            match LzmaDecoder::new(params(cur_size), memlimit) {
                                 Ok(mut f) => err_kind(f.decompress(&mut fr, &mut fout)),
                                 Err(e) => Verdict::Err(e.to_string()),
                             }
@@ -305,6 +317,9 @@ fn exec(sc: &Scenario, ctx: &mut Ctx) -> Vec<Violation> {
     if cycles >= 256 {
         ctx.stats.hit("probe.256_or_more_reuse_cycles");
     }
+    if memlimit.is_some() {
+        ctx.stats.hit("arm.decoders_constructed_with_a_memory_limit");
+    }
     if lzma2 {
         ctx.stats.hit("arm.lzma2_decoder");
     } else {
@@ -320,7 +335,7 @@ fn exec(sc: &Scenario, ctx: &mut Ctx) -> Vec<Violation> {
 pub static C14: SimpleProp = SimpleProp {
     id: "C14",
     level: "exploration",
-    rule: "one evaluation = one history of 4-12 operations (or, 1 run in 24, of A, k x (reset, B), reset, A with k up to 1025 - 65537 in the thorough tier - reuse cycles) {decompress stream i (valid, bit-flipped, truncated, spliced, or cut short by an injected source error after k one-byte refills), reset(None), reset(Some(None)), reset(Some(Some(n))) with n = a stream's size, ±1, or 0 / 2^32 / 2^63 / 2^64-1} on a single raw::LzmaDecoder (any lc/lp/pb, dictionary 1..65536) or raw::Lzma2Decoder (streams with changing properties); after every reset the next decompress is compared (verdict, bytes, consumed count) with a freshly constructed decoder with the same parameters and the size last specified; non-trivial = at least one such comparison; distinct by scenario hash",
+    rule: "one evaluation = one history of 4-12 operations (or, 1 run in 24, of A, k x (reset, B), reset, A with k up to 1025 - 65537 in the thorough tier - reuse cycles) {decompress stream i (valid, bit-flipped, truncated, spliced, or cut short by an injected source error after k one-byte refills), reset(None), reset(Some(None)), reset(Some(Some(n))) with n = a stream's size, ±1, or 0 / 2^32 / 2^63 / 2^64-1} on a single raw::LzmaDecoder (any lc/lp/pb, dictionary 1..65536; a third constructed with a memory limit, which every fresh decoder then shares) or raw::Lzma2Decoder (streams with changing properties); after every reset the next decompress is compared (verdict, bytes, consumed count) with a freshly constructed decoder with the same parameters and the size last specified; non-trivial = at least one such comparison; distinct by scenario hash",
     runs_quick: 120_000,
     runs_thorough: 6_000_000,
     both_profiles: false,
